@@ -1207,9 +1207,11 @@ func main() {
 		"real PLAIN / SCRAM-SHA-1 / SCRAM-SHA-256 (+ -PLUS names) against a reactive SCRAM peer, both permission verdicts, and client-vs-server pairs over net.Pipe; " +
 		"distinct = hash of the case description; non-trivial = the SASL feature's Negotiate ran and read a peer element or stepped a mechanism"
 	per := 1500
-	res.CaseFiles = append(res.CaseFiles, x.cc.Write(o.Out, per)...)
-	res.CaseFiles = append(res.CaseFiles, x.sc.Write(o.Out, per)...)
-	res.CaseFiles = append(res.CaseFiles, x.bc.Write(o.Out, per)...)
-	res.Extra["model_cases"] = x.cc.Len() + x.sc.Len() + x.bc.Len()
+	if !o.Search { // search mode: implementation oracle only
+		res.CaseFiles = append(res.CaseFiles, x.cc.Write(o.Out, per)...)
+		res.CaseFiles = append(res.CaseFiles, x.sc.Write(o.Out, per)...)
+		res.CaseFiles = append(res.CaseFiles, x.bc.Write(o.Out, per)...)
+		res.Extra["model_cases"] = x.cc.Len() + x.sc.Len() + x.bc.Len()
+	}
 	res.Write(o.Out)
 }
